@@ -612,6 +612,10 @@ func drive(ps *propSpec, tier string, seed uint64, evidencePath, replayDir, find
 	// probes that must have been reached
 	if exit == 0 && tier == "thorough" {
 		for _, p := range ps.MustProbes {
+			if wovenSites.loaded && len(wovenSites.mapRanges) == 0 && (p == "map_ranges_under_chosen_order" || p == "map.order") {
+				// the library at this tree has no map range at all: nothing for the T1 seam to own
+				continue
+			}
 			if total.Probes[p] == 0 && total.Faults[p] == 0 {
 				fmt.Printf("HARNESS-TROUBLE: probe %q was never reached in a thorough batch; the workload needs fixing\n", p)
 				exit = 2
@@ -639,31 +643,34 @@ func drive(ps *propSpec, tier string, seed uint64, evidencePath, replayDir, find
 			"seed":        seed,
 			"level":       "exploration",
 			"coverage": map[string]any{
-				"evaluations":         total.Evals,
-				"distinct_nontrivial": len(shapes),
-				"rule":                ps.Rule,
-				"samples":             sampleAny,
-				"runs":                total.Runs,
-				"runs_nontrivial":     total.NonTrivial,
-				"runs_per_hour":       int64(rph),
-				"operations_executed": total.OpsRun,
-				"logical_steps":       total.Steps,
-				"simulated_time":      "no clock exists in the library; logical steps are the only time",
-				"faults_fired":        total.Faults,
-				"probes":              total.Probes,
-				"worlds":              ps.Worlds,
-				"workers":             nworkers,
-				"real_components":     ps.Real,
-				"stub_components":     ps.Stubs,
+				"evaluations":           total.Evals,
+				"distinct_nontrivial":   len(shapes),
+				"rule":                  ps.Rule,
+				"samples":               sampleAny,
+				"runs":                  total.Runs,
+				"runs_nontrivial":       total.NonTrivial,
+				"runs_per_hour":         int64(rph),
+				"operations_executed":   total.OpsRun,
+				"logical_steps":         total.Steps,
+				"simulated_time":        "no clock exists in the library; logical steps are the only time",
+				"faults_fired":          total.Faults,
+				"probes":                total.Probes,
+				"worlds":                ps.Worlds,
+				"workers":               nworkers,
+				"real_components":       ps.Real,
+				"stub_components":       ps.Stubs,
 				"batch_cut_by_wall_cap": total.TimedOut,
-				"exhaustive":          false,
+				"exhaustive":            false,
+				"woven_map_range_sites": wovenSites.mapRanges,
+				"woven_yield_sites":     wovenSites.yields,
+				"verif_seed_derivation": "run seed = mix(mix(VERIF_SEED, hash(property id)), run index + 1); worker w of n executes indices w, w+n, ...",
 			},
 			"assumptions": ps.Assumptions,
 			"wall_s":      wall,
 			"violations":  newViol,
 		}
 		if extra := evidenceExtra[ps.ID]; extra != nil {
-			for k, v := range extra() {
+			for k, v := range extra(total) {
 				ev["coverage"].(map[string]any)[k] = v
 			}
 		}
@@ -673,8 +680,45 @@ func drive(ps *propSpec, tier string, seed uint64, evidencePath, replayDir, find
 	return exit
 }
 
+// woven sites, as reported by simbuild (sites.json)
+var wovenSites struct {
+	loaded    bool
+	mapRanges []string
+	yields    int
+}
+
+func loadSites(path string) {
+	if path == "" {
+		return
+	}
+	b, err := os.ReadFile(path)
+	if err != nil {
+		return
+	}
+	var sites []struct {
+		Kind string `json:"kind"`
+		Pos  string `json:"pos"`
+	}
+	if json.Unmarshal(b, &sites) != nil {
+		return
+	}
+	wovenSites.loaded = true
+	for _, s := range sites {
+		switch s.Kind {
+		case "maprange":
+			pos := s.Pos
+			if i := strings.LastIndex(pos, "/"); i >= 0 {
+				pos = pos[i+1:]
+			}
+			wovenSites.mapRanges = append(wovenSites.mapRanges, pos)
+		case "yield":
+			wovenSites.yields++
+		}
+	}
+}
+
 // evidenceExtra lets a property add measured keys to its coverage object.
-var evidenceExtra = map[string]func() map[string]any{}
+var evidenceExtra = map[string]func(total *workerOut) map[string]any{}
 
 func reproducesFresh(path string) bool {
 	cmd := exec.Command(os.Args[0], "-replay", path)
